@@ -31,6 +31,10 @@ M = [
  ("S20", "C08", "Create on an existing dataset of another shape is silently accepted", [("io/hdf5_util.go", "\t\t\tds.Close()\n\t\t\treturn nil, errors.New(\"Cannot resize datasets\")\n", "\t\t\t_ = errors.New\n\t\t\treturn ds, nil\n", 1)]),
  ("S21", "C04", "oversized output arrays: timestep extent taken from the outputs array", [("models/conversion/generated_ApplyScalingFactor.go", "  outputSizeSlice[sim.DIMO_TIMESTEP] = inputLen\n", "  outputSizeSlice[sim.DIMO_TIMESTEP] = outputs.Len(sim.DIMO_TIMESTEP)\n", 1)]),
  ("S22", "C06", "InstreamCoarseSediment forgets its channel store when a segment has a single step", [("models/routing/instream_coarse_sediment.go", "COARSE_MARK", "", 0)]),
+ ("S23", "C07", "writer process reads the message body with one Read instead of ReadFull (short reads split a message)", [("cmd/ow-sim/writer.go", "    if _, err := gio.ReadFull(input, msg); err != nil {", "    if _, err := input.Read(msg); err != nil {", 1)]),
+ ("S24", "C07", "writer process is not waited for after the last generation", [("cmd/ow-sim/simulation_model_reference.go", "\tmr.OutputProcess.Wait()\n", "", 1)]),
+ ("S25", "C07", "writer process places a generation at its node count instead of its starting row when the model has three or more generations", [("cmd/ow-sim/simulation_model_reference.go", "\tdata.StartingLocation = mr.generationLocation(generation)\n", "\tdata.StartingLocation = mr.generationLocation(generation)\n\tif generation > 1 && gen.Count > 1 {\n\t\tdata.StartingLocation = int32(gen.Count)\n\t}\n", 1)]),
+
 ]
 
 def special(repo, mark):
